@@ -276,16 +276,21 @@ void f_link (void) {
     error ("link() efun called before master object is set up.\n");
   if (sp)
     {
-      push_svalue (sp - 1);
-      push_svalue (sp);
+      svalue_t *arg = sp - 1;	/* arg[0]: existing file, arg[1]: new name */
+
+      /* push_svalue() is a macro that moves sp before it reads its argument:
+       * push_svalue (sp) would copy the unused slot above the stack onto itself */
+      push_svalue (arg);
+      push_svalue (arg + 1);
       ret = apply_master_ob (APPLY_VALID_LINK, 2);
       if (MASTER_APPROVED (ret))
         i = do_rename ((sp - 1)->u.string, sp->u.string, F_LINK);
       else
         i = 0;
-      (--sp)->type = T_NUMBER;
-      sp->u.number = i;
-      sp->subtype = 0;
+      /* both names are ours to release, as in f_rename() */
+      free_string_svalue (sp--);
+      free_string_svalue (sp);
+      put_number (i);
     }
 }
 #endif /* F_LINK */
